@@ -482,7 +482,7 @@ func (obj *Package) Export(name string) {
 	obj.mu.Lock()
 	obj.Exports = append(obj.Exports, name)
 	if obj.funcs != nil {
-		if fi := obj.funcs[name]; fi != nil {
+		if fi := obj.funcs[name]; fi != nil && fi.Pkg == obj {
 			fi.Export = true
 			for _, u := range obj.Users {
 				u.mu.Lock()
@@ -495,13 +495,15 @@ func (obj *Package) Export(name string) {
 	}
 	if obj.vars != nil {
 		if vv := obj.vars[name]; vv != nil {
-			vv.Export = true
-			for _, u := range obj.Users {
-				u.mu.Lock()
-				if xv := u.vars[name]; xv == nil {
-					u.vars[name] = vv
+			if vv.Pkg == obj {
+				vv.Export = true
+				for _, u := range obj.Users {
+					u.mu.Lock()
+					if xv := u.vars[name]; xv == nil {
+						u.vars[name] = vv
+					}
+					u.mu.Unlock()
 				}
-				u.mu.Unlock()
 			}
 		} else {
 			vv := newUnboundVar(name)
@@ -526,7 +528,7 @@ func (obj *Package) Unexport(name string) {
 	obj.mu.Lock()
 	// TBD remove from Exports list
 	if obj.funcs != nil {
-		if fi := obj.funcs[name]; fi != nil {
+		if fi := obj.funcs[name]; fi != nil && fi.Pkg == obj {
 			fi.Export = false
 			for _, u := range obj.Users {
 				u.mu.Lock()
@@ -538,7 +540,7 @@ func (obj *Package) Unexport(name string) {
 		}
 	}
 	if obj.vars != nil {
-		if vv := obj.vars[name]; vv != nil {
+		if vv := obj.vars[name]; vv != nil && vv.Pkg == obj {
 			vv.Export = false
 			for _, u := range obj.Users {
 				u.mu.Lock()
